@@ -30,21 +30,21 @@ deriving Repr, DecidableEq
 /-- `"{:.pf}".format(x)`: the integer count of `10^-p` printed (half-even on the exact value) -/
 def fixQ (p : Nat) (x : Q) : Int := roundDiv (x.num * (10 : Int) ^ p) x.den
 
-/-- `x < 10^e` for `x = num/den ≥ 0` -/
-def ltPow10 (x : Q) (e : Int) : Bool :=
-  if e ≥ 0 then x.num < (10 : Int) ^ e.toNat * x.den else x.num * (10 : Int) ^ (-e).toNat < x.den
+/-- `n/d < 10^(j-400)`: decimal exponents are counted from −400, below every double, so that only natural powers occur -/
+def ltPow10 (n d j : Nat) : Bool := n * 10 ^ 400 < 10 ^ j * d
 
-/-- least `e ≥ lo` (within `fuel` steps) with `x < 10^e` -/
-def magUp : Nat → Int → Q → Int
-  | 0, e, _ => e
-  | f + 1, e, x => if ltPow10 x e then e else magUp f (e + 1) x
+/-- least `j' ≥ j` (within `fuel` steps) with `n/d < 10^(j'-400)` -/
+def magUp : Nat → Nat → Nat → Nat → Nat
+  | 0, j, _, _ => j
+  | f + 1, j, n, d => if ltPow10 n d j then j else magUp f (j + 1) n d
 
-/-- decimal exponent of `x > 0`: `10^(e-1) ≤ x < 10^e` for every `x` in `[1e-400, 1e400)` (every finite non-zero double) -/
-def magQ (x : Q) : Int := magUp 800 (-400) x
+/-- decimal exponent of `n/d > 0`, offset by 400: `10^(j-401) ≤ n/d < 10^(j-400)` for every value in `[1e-400, 1e400)`
+(every finite non-zero double) -/
+def magQ (n d : Nat) : Nat := magUp 800 0 n d
 
-/-- `x · 10^k` rounded half-even to an integer (`k` of either sign) -/
-def scaleRound (x : Q) (k : Int) : Int :=
-  if k ≥ 0 then roundDiv (x.num * (10 : Int) ^ k.toNat) x.den else roundDiv x.num (x.den * 10 ^ (-k).toNat)
+/-- `n/d · 10^(405-j)` rounded half-even: the five significant digits of `"{:.4e}"` when `j = magQ n d` -/
+def sig5Q (n d j : Nat) : Nat :=
+  if j ≤ 405 then (roundDiv ((n * 10 ^ (405 - j) : Nat) : Int) d).toNat else (roundDiv (n : Int) (d * 10 ^ (j - 405))).toNat
 
 /-- `x < 2^e` for `x = num/den ≥ 0` -/
 def ltPow2 (x : Q) (e : Int) : Bool :=
@@ -71,10 +71,11 @@ or, when that exponent is below −9, `round(abs(flt) * 10 ** 14)` — the produ
 def unflQ (neg : Bool) (x : Q) : Unfl :=
   if x.num ≤ 0 then .zero
   else
-    let e := magQ x
-    let m := (scaleRound x (5 - e)).toNat
+    let n := x.num.toNat
+    let j := magQ n x.den
+    let m := sig5Q n x.den j
     let m5 := if m = 100000 then 10000 else m
-    let exp := if m = 100000 then e + 1 else e
+    let exp : Int := ((if m = 100000 then j + 1 else j : Nat) : Int) - 400
     if exp < -9 then
       let prod := fl53 ⟨x.num * 100000000000000, x.den⟩
       .small neg (roundDiv prod.num prod.den).toNat
@@ -95,7 +96,7 @@ def absOfYear (year : Nat) (us : Int) : Int :=
 /-- what `Tle.from_orbit` hands to `str.format`, each number with its exact value -/
 structure QOrb where
   name : Str
-  norad : Str             -- `str(norad_id)`
+  norad : Int             -- `norad_id` (an integer here; other forms: `Model/TleOrb.lean`)
   cospar : Str            -- the eight designator columns (century removed)
   dateUs : Int            -- the orbit's date in its own scale, microseconds since 0001-01-01
   offsetUs : Int          -- own scale − UTC at that date
@@ -118,7 +119,7 @@ deriving Repr, DecidableEq
 /-- round every number to the grid of its format specification -/
 def quantize (o : QOrb) : Rec :=
   let ep := epochOfAbs (o.dateUs - o.offsetUs)
-  { name := o.name, norad := 0, cospar := o.cospar, yy := ep.1, day8 := ep.2,
+  { name := o.name, norad := o.norad, cospar := o.cospar, yy := ep.1, day8 := ep.2,
     ndotNeg := o.ndotNeg, ndot8 := (fixQ 8 o.ndot).toNat, ndd := unflQ o.nddNeg o.ndd, bstar := unflQ o.bstarNeg o.bstar,
     elnb := o.elnb, inc4 := (fixQ 4 o.inc).toNat, raan4 := (fixQ 4 o.raan).toNat, ecc7 := (fixQ 7 o.ecc).toNat,
     argp4 := (fixQ 4 o.argp).toNat, ma4 := (fixQ 4 o.ma).toNat, mm8 := (fixQ 8 o.mm).toNat, revs := o.revs }
@@ -133,6 +134,6 @@ def nonNegQ (o : QOrb) : Bool :=
 def fromOrbitQ (o : QOrb) : Except Err Parsed :=
   -- `"{:.7f}".format(e)` of a negative `e` starts with `-`: refused by the `startswith("0.")` guard
   if o.ecc.num < 0 then .error .eccentricity
-  else if nonNegQ o then fromOrbitN o.norad (quantize o) else .error .outOfModel
+  else if nonNegQ o then fromOrbit (quantize o) else .error .outOfModel
 
 end BeyondVerif.Tle
